@@ -16,6 +16,6 @@ def run(ctx):
             "signature verification (C05) under unforgeability; a run reports no internal error (C07 oracle)"],
         assumptions=["signature unforgeability (hypothesis: a vote of an honest member exists only if it emitted it)",
                      "faulty members hold < 1/3 of scaled power",
-                     "mid-instance restarts are out of scope here (C12 composes)"],
+                     "mid-instance restarts: agreement_model_restarts composes with C12 (the wire of a restarting member carries one value per slot and only requested votes: PublishedOK, discharged from C12.wire_no_equivocation / record_before_publish)"],
         search=g.search("C01-"),
     )
